@@ -392,21 +392,23 @@ Apply(fv, names, vals, st) ==
 
 \* comprehensions: a = <<value expr (a "kv" node <<key, value>> for maps), id, what, list expr, cond or "none">>
 EvCompr(node, items, i, le, st, acc) ==
+  \* the condition decides first, the value is evaluated only for accepted elements: that is what the
+  \* equivalent explicit loop `for x in c do if cond then add(value)` does (C04)
   IF i > Len(items)
   THEN R(Val(CASE node.s = "list" -> ListV(acc) [] node.s = "set" -> SetV(SortVals(acc)) [] node.s = "map" -> MapV(acc)), st)
   ELSE IF st.fuel = 0 THEN R(O("fuel", Null), st)
   ELSE
   LET s1 == Put([st EXCEPT !.fuel = @ - 1], le, node.a[2], items[i])
-      kv == IF node.s = "map" THEN Ev(node.a[1].a[1], le, s1) ELSE R(Val(Null), s1)
-  IN IF ~IsVal(kv) THEN kv
+      c  == IF node.a[5].n = "none" THEN R(Val(Bool(TRUE)), s1) ELSE Ev(node.a[5], le, s1)
+  IN IF ~IsVal(c) THEN c
+  ELSE IF c.o.v.k # "bool" THEN R(RErr, c.st)
+  ELSE IF c.o.v.n = 0 THEN EvCompr(node, items, i + 1, le, c.st, acc)
+  ELSE LET kv == IF node.s = "map" THEN Ev(node.a[1].a[1], le, c.st) ELSE R(Val(Null), c.st) IN
+  IF ~IsVal(kv) THEN kv
   ELSE LET v == Ev(IF node.s = "map" THEN node.a[1].a[2] ELSE node.a[1], le, kv.st) IN
   IF ~IsVal(v) THEN v
-  ELSE LET c == IF node.a[5].n = "none" THEN R(Val(Bool(TRUE)), v.st) ELSE Ev(node.a[5], le, v.st) IN
-  IF ~IsVal(c) THEN c
-  ELSE IF c.o.v.k # "bool" THEN R(RErr, c.st)
-  ELSE EvCompr(node, items, i + 1, le, c.st,
-               IF c.o.v.n = 0 THEN acc
-               ELSE IF node.s = "map" THEN MapPut(acc, kv.o.v, v.o.v) ELSE Append(acc, v.o.v))
+  ELSE EvCompr(node, items, i + 1, le, v.st,
+               IF node.s = "map" THEN MapPut(acc, kv.o.v, v.o.v) ELSE Append(acc, v.o.v))
 
 EvCompr2(node, pairs, i, le, st, acc) ==
   IF i > Len(pairs)
@@ -414,12 +416,13 @@ EvCompr2(node, pairs, i, le, st, acc) ==
   ELSE IF st.fuel = 0 THEN R(O("fuel", Null), st)
   ELSE
   LET s1 == Put(Put([st EXCEPT !.fuel = @ - 1], le, node.a[3], pairs[i][1]), le, node.a[6], pairs[i][2])
-      v  == Ev(node.a[2], le, s1) IN
-  IF ~IsVal(v) THEN v
-  ELSE LET c == IF node.a[9].n = "none" THEN R(Val(Bool(TRUE)), v.st) ELSE Ev(node.a[9], le, v.st) IN
+      c  == IF node.a[9].n = "none" THEN R(Val(Bool(TRUE)), s1) ELSE Ev(node.a[9], le, s1) IN
   IF ~IsVal(c) THEN c
   ELSE IF c.o.v.k # "bool" THEN R(RErr, c.st)
-  ELSE EvCompr2(node, pairs, i + 1, le, c.st, IF c.o.v.n = 0 THEN acc ELSE Append(acc, v.o.v))
+  ELSE IF c.o.v.n = 0 THEN EvCompr2(node, pairs, i + 1, le, c.st, acc)
+  ELSE LET v == Ev(node.a[2], le, c.st) IN
+  IF ~IsVal(v) THEN v
+  ELSE EvCompr2(node, pairs, i + 1, le, v.st, Append(acc, v.o.v))
 
 \* object member lookup following _proto_ (NodeDeref / NodeDerefInvoke)
 RECURSIVE FindMember(_, _, _)
